@@ -713,14 +713,21 @@ fn dump_creation_table(dir: &Path, side: &Path) {
     let _ = std::fs::write(side, s);
 }
 
-/// creation times by inode, written atomically (the process may be killed at any instant)
-fn dump_creation_table_ino(dir: &Path, side: &Path) {
+/// identity of a file that survives renaming and cannot be confused with a later file that
+/// reuses the inode number: (inode, real birth time in ns) — as in the hooks' own table
+fn file_identity(md: &std::fs::Metadata) -> String {
     use std::os::unix::fs::MetadataExt;
+    let birth = md.created().ok().and_then(|t| t.duration_since(std::time::UNIX_EPOCH).ok()).map_or(0, |d| d.as_nanos());
+    format!("{}:{}", md.ino(), birth)
+}
+
+/// creation times by file identity, written atomically (the process may be killed at any instant)
+fn dump_creation_table_ino(dir: &Path, side: &Path) {
     let mut s = String::new();
     for n in list_dir(dir, &[]) {
         let p = dir.join(&n);
         if let (Some(t), Ok(md)) = (flexi_logger::verif_hooks::creation_time(&p), std::fs::metadata(&p)) {
-            s.push_str(&format!("{}\t{}\n", md.ino(), t.format("%Y%m%d%H%M%S")));
+            s.push_str(&format!("{}\t{}\n", file_identity(&md), t.format("%Y%m%d%H%M%S")));
         }
     }
     let tmp = side.with_extension("tmp");
@@ -813,18 +820,19 @@ fn execute_inner(ctx: &mut Ctx, lines: &[String]) -> Vec<String> {
             for r in &recs[..burst_acked.min(recs.len())] { acked.push(r.clone()); }
             let inflight = recs.get(burst_acked).cloned().unwrap_or_default();
             crash_info = Some((inflight, killed, acked));
-            // creation times by inode as of the last completed open; a file that is not in the
-            // table was created by the operation in flight, at the (virtual) time of the burst
-            use std::os::unix::fs::MetadataExt;
-            let mut by_ino = std::collections::HashMap::new();
+            // creation times by file identity as of the last completed open; a file that is not in
+            // the table was created by the operation in flight, at the (virtual) time of the burst.
+            // (The identity includes the real birth time: a file removed by a cleanup frees its inode
+            // number, and the very next file may get it.)
+            let mut by_ino: std::collections::HashMap<String, u64> = std::collections::HashMap::new();
             for l in std::fs::read_to_string(&side).unwrap_or_default().lines() {
-                if let Some((i, tt)) = l.split_once('\t') { by_ino.insert(i.parse::<u64>().unwrap(), tt.parse::<u64>().unwrap()); }
+                if let Some((i, tt)) = l.split_once('\t') { by_ino.insert(i.to_string(), tt.parse::<u64>().unwrap()); }
             }
             let now: u64 = t[2].parse().unwrap();
             for n in list_dir(&dir, &[]) {
                 let p = dir.join(&n);
                 if let Ok(md) = std::fs::metadata(&p) {
-                    let tt = by_ino.get(&md.ino()).copied().unwrap_or(now);
+                    let tt = by_ino.get(&file_identity(&md)).copied().unwrap_or(now);
                     flexi_logger::verif_hooks::set_creation(&p, stamp_to_local(tt));
                 }
             }
